@@ -27,7 +27,8 @@
    NOT modelled (trusted): the pickle machinery itself.  A pickled value is the [reduced] term; GLOBAL /
    STACK_GLOBAL is [lookup_global], REDUCE is [apply_fn], NEWOBJ+BUILD is the [FNewObj] case.  That real
    pickles contain nothing but such names is observed with pickletools by the driver.
-   Omitted: metaclasses other than [type]; declarations that contain [Interface] itself or another
+   Metaclasses other than [type] are names only (w_meta): what a metaclass itself implements is not
+   modelled (a ClassProvides' last base is written RType for every metaclass).  Omitted: declarations that contain [Interface] itself or another
    class's specification as an argument; __resolve order (flattened()) -- compared only before/after by
    the Spec oracle of the tie; specifications of [super] objects; nested (qualname) globals. *)
 From Coq Require Import List NArith ZArith Bool Arith String Ascii.
@@ -86,9 +87,13 @@ Record world := mkWorld {
   w_ifaces : list (gname * list nat);   (* interface i: its global name, its __bases__ (Interface implicit) *)
   w_classes : list (gname * list nat);  (* class c: its global name, its __bases__ (object implicit) *)
   w_insts : list (nat * list Z);        (* instance o: its class, its plain attribute values *)
-  w_builtin : list nat                  (* classes that are built-in types (complex, frozenset, ...): their
+  w_builtin : list nat;                 (* classes that are built-in types (complex, frozenset, ...): their
                                            attributes cannot be set, the spec lives in
                                            BuiltinImplementationSpecifications, no __provides__ is installed *)
+  w_meta : list (nat * gname);          (* class c -> the global name of its metaclass when that is not `type`
+                                           (e.g. a metaclass that makes the class object falsy) *)
+  w_oldstyle : list (nat * list nat)    (* class c -> the interfaces of an old-style `__implemented__ = I` /
+                                           `= (I, J)` in its body *)
 }.
 
 Definition is_builtin (w : world) (c : nat) : bool := mem_nat c (w_builtin w).
@@ -102,6 +107,7 @@ Inductive obj :=
 | OIface (i : nat)
 | OClass (c : nat)
 | OType                 (* builtins.type *)
+| OMeta (g : gname)     (* another metaclass, by its global name *)
 | OImpl (c : nat)       (* THE Implements object stored in class c's __dict__['__implemented__'] *)
 | OEmpty                (* the _empty singleton *)
 | OProv (p : nat)       (* a Provides object, by allocation number *)
@@ -115,6 +121,7 @@ Definition obj_eqb (a b : obj) : bool :=
   | OIface x, OIface y | OClass x, OClass y | OImpl x, OImpl y
   | OProv x, OProv y | OCProv x, OCProv y | OInst x, OInst y => Nat.eqb x y
   | OType, OType | OEmpty, OEmpty | ONone, ONone => true
+  | OMeta g, OMeta h => gname_eqb g h
   | OInt x, OInt y => Z.eqb x y
   | _, _ => false
   end.
@@ -133,7 +140,8 @@ Definition lookup_global (w : world) (g : gname) : option obj :=
        | Some i => Some (OIface i)
        | None => match find_name g (w_classes w) 0 with
                  | Some c => Some (OClass c)
-                 | None => None
+                 | None => if existsb (fun cg : nat * gname => gname_eqb g (snd cg)) (w_meta w)
+                           then Some (OMeta g) else None
                  end
        end.
 
@@ -143,7 +151,9 @@ Definition wf_globals (w : world) : bool :=
   forallb (fun i => option_eqb obj_eqb (lookup_global w (iname w i)) (Some (OIface i)))
           (seq 0 (List.length (w_ifaces w)))
   && forallb (fun c => option_eqb obj_eqb (lookup_global w (cname w c)) (Some (OClass c)))
-             (seq 0 (List.length (w_classes w))).
+             (seq 0 (List.length (w_classes w)))
+  && forallb (fun cg : nat * gname => option_eqb obj_eqb (lookup_global w (snd cg)) (Some (OMeta (snd cg))))
+             (w_meta w).
 
 (* ------------------------------------------------------------------ run-time state *)
 
@@ -212,7 +222,12 @@ Definition install_cprov (st : state) (c q : nat) : state :=
 
 (* what implementedBy(c) creates for a class without a specification *)
 Definition default_impl (w : world) (c : nat) : impl_rec :=
-  mkImpl (Some c) (Some c) [] (map RC (cbases w c)).
+  match assoc_nat c (w_oldstyle w) with
+  (* old-style `__implemented__ = I`: spec = Implements.named(name, *declared); spec.inherit = None;
+     spec.declared = declared *)
+  | Some declared => mkImpl None (Some c) declared (map RI declared)
+  | None => mkImpl (Some c) (Some c) [] (map RC (cbases w c))
+  end.
 
 (* declarations.py:implementedBy, for a class.  An existing spec is returned as is (identity).
    Otherwise: the specs of the bases first, then the new spec with inherit = _implements_cls = cls,
@@ -493,7 +508,9 @@ Definition reduce_prov (w : world) (pr : prov_rec) : reduced :=
   Call FProvides (ByName (cname w (pv_cls pr)) :: map (fun i => ByName (iname w i)) (pv_ifaces pr)).
 
 Definition reduce_cprov (w : world) (q : cprov_rec) : reduced :=
-  Call FClassProvides (ByName (cname w (cp_cls q)) :: ByName g_type :: map (fun i => ByName (iname w i)) (cp_ifaces q)).
+  Call FClassProvides (ByName (cname w (cp_cls q))
+                       :: match assoc_nat (cp_cls q) (w_meta w) with Some g => ByName g | None => ByName g_type end
+                       :: map (fun i => ByName (iname w i)) (cp_ifaces q)).
 
 (* object.__reduce_ex__(2) of a plain instance: copyreg.__newobj__(cls) + state (__dict__), whose
    '__provides__' entry is the nested reduction of the declaration *)
@@ -518,6 +535,9 @@ Definition opt_is_none {A} (x : option A) : bool := match x with None => true | 
 Definition class_ref (w : world) (c : nat) : reduced := ByName (cname w c).
 Definition iface_refs (w : world) (is : list nat) : list reduced := map (fun i => ByName (iname w i)) is.
 Definition type_ref : reduced := ByName g_type.
+(* the `metacls` argument of ClassProvides: type(cls) *)
+Definition meta_ref (w : world) (c : nat) : reduced :=
+  match assoc_nat c (w_meta w) with Some g => ByName g | None => type_ref end.
 
 (* InstanceDeclarations.get(key) / InstanceDeclarations[key] = spec *)
 Definition cache_get (st : state) (k : ckey) : option nat := assoc_key k (st_cache st).
@@ -540,6 +560,7 @@ Fixpoint all_some {A} (l : list (option A)) : option (list A) :=
   | Some x :: l' => match all_some l' with Some xs => Some (x :: xs) | None => None end
   end.
 
+Definition is_metaclass (x : obj) : bool := match x with OType | OMeta _ => true | _ => false end.
 Definition as_iface (x : obj) : option nat := match x with OIface i => Some i | _ => None end.
 Definition as_int (x : obj) : option Z := match x with OInt z => Some z | _ => None end.
 
@@ -558,11 +579,11 @@ Definition apply_fn (fuel : nat) (w : world) (st : state) (f : global_fn) (vs : 
           | Some is => let '(st', p) := provides_factory fuel w st c is in (st', Some (OProv p))
           | None => (st, None)
           end
-      | FClassProvides, OClass c :: OType :: rest =>
-          match all_some (map as_iface rest) with
-          | Some is => let st1 := implementedBy fuel w st c in
-                       (alloc_cprov st1 c is, Some (OCProv (List.length (st_cprovs st1))))
-          | None => (st, None)
+      | FClassProvides, OClass c :: m :: rest =>
+          match is_metaclass m, all_some (map as_iface rest) with
+          | true, Some is => let st1 := implementedBy fuel w st c in
+                             (alloc_cprov st1 c is, Some (OCProv (List.length (st_cprovs st1))))
+          | _, _ => (st, None)
           end
       | FNewObj, OClass c :: d :: attrs =>
           match all_some (map as_int attrs) with
